@@ -12,7 +12,7 @@
    (harness/wbt-driver) and Miri.  Nothing in this file is partial or refuted. *)
 
 From Coq Require Import NArith List Sorted.
-From WBT Require Import Model Spec Run RefRun FactsList FactsBalance FactsOrder FactsInv
+From WBT Require Import Model Spec Run RefRun FactsList FactsBalance FactsOrder FactsInv FactsInvB
   FactsRun FactsExamples.
 Import ListNotations.
 Open Scope N_scope.
@@ -222,6 +222,13 @@ Theorem C14_inv_b_sound :
   forall (V : Type) (t : tree V), inv_b t = true -> Inv t.
 Proof. exact (@inv_b_ok). Qed.
 Print Assumptions C14_inv_b_sound.
+
+(* ... and complete: it accepts every tree that satisfies the invariant, so a rejection is a real
+   invariant violation of the observed tree *)
+Theorem C14_inv_b_complete :
+  forall (V : Type) (t : tree V), Inv t -> inv_b t = true.
+Proof. exact (@inv_b_complete). Qed.
+Print Assumptions C14_inv_b_complete.
 
 (* ================= non-vacuity ================= *)
 
